@@ -57,6 +57,7 @@ def chunks(tier):
     for nr, np_ in b["formula_sides"]:
         for first in range(len(FORMULAS)):
             out.append(("F", nr, np_, first))
+    out += [("L", k, 0, pat) for k in (9, 10, 11, 12) for pat in range(3)]
     return out
 
 
@@ -147,8 +148,27 @@ def smaller_sum_solution(A, n, s):
 
 
 # ------------------------------------------------------------------------------------------------ one instance
+def _long_vectors(k, pat):
+    """k elemental species E1..Ek and one or two compounds built from all of them: > 10 species in one reaction"""
+    coef = [[(i % 3) + 1 for i in range(k)], [((7 * i) % 5) + 1 for i in range(k)], [1 + (i == k - 1) * 2 + (i == 0) for i in range(k)]][pat]
+    vecs = [[1 if j == i else 0 for j in range(k)] for i in range(k)]
+    vecs.append(list(coef))
+    if pat == 2:  # a second product sharing the elements: two-dimensional solution space
+        vecs.append([1] * k)
+    return vecs
+
+
 def _instance(layer, R, P, tier):
     from chempy import Substance
+
+    if layer == "L":
+        k, pat = R
+        V = _long_vectors(k, pat)
+        names = ["E%d" % i for i in range(k)] + ["P%d" % i for i in range(len(V) - k)]
+        subs = {nm: Substance(nm, composition={j + 1: x for j, x in enumerate(v) if x}) for nm, v in zip(names, V)}
+        n, nR = len(names), k
+        A = [[Fr(V[j][row]) * (-1 if j < nR else 1) for j in range(n)] for row in range(k)]
+        return names, nR, subs, A
 
     if layer == "F":
         from chempy.util.parsing import formula_to_composition
@@ -240,8 +260,10 @@ def check_instance(res, layer, R, P, tier, modes=MODES, dup=False):
                 g = [abs(t) for t in primitive(ns[0])]
                 if [sympy.sympify(e) for e in x] != [sympy.Integer(t) for t in g]:
                     v.append("not-the-unique-minimal-solution")
-            if mode is None and feasible and not v:
-                b = smaller_sum_solution(A, n, sum(int(e) for e in x))
+            if mode is None and feasible and not v and (n <= 7 or single):
+                # (exhaustive search below the returned sum; for the long layer only single-ray systems, where the
+                # unique-minimal-solution clause already decided, are cheap enough)
+                b = None if single else smaller_sum_solution(A, n, sum(int(e) for e in x))
                 if b:
                     v.append("not-minimal-sum")
             res.outcomes["%s:returned%s" % (cls, "-parametric" if parametric else "")] += 1
@@ -267,6 +289,8 @@ def check_instance(res, layer, R, P, tier, modes=MODES, dup=False):
 
 
 def _show(layer, idx, tier):
+    if layer == "L":
+        return ["long:k=%d,pattern=%d" % tuple(idx)] if len(idx) == 2 else []
     if layer == "F":
         return [FORMULAS[i] for i in idx]
     V = _vec(tier)
@@ -326,6 +350,11 @@ def check_duplicates(res, R, P, tier):
 def run_chunk(chunk, tier):
     res = Result()
     kind, nr, np_, first = chunk
+    if kind == "L":
+        cls = check_instance(res, "L", (nr, first), (), tier)
+        res.symbols["long-" + cls] += 1
+        res.sample(dict(layer="L", species=nr + (2 if first == 2 else 1), pattern=first, cls=cls))
+        return res
     n = len(FORMULAS) if kind == "F" else len(_vec(tier))
     idx = list(range(n))
     if kind in ("V", "F"):
